@@ -292,7 +292,7 @@ func checkUtil(t *testing.T, c UtilCase) (v harness.Verdict) {
 
 // Util is the ctutil.VerifySCT clause of C05.
 var Util = harness.Define(harness.Opts{
-	Name: "ctutil",
-	Rule: "generated chains (internal/world: 4 roots, 0-3 intermediates, leaf / precert / precert under a pre-issuer / final certificate with the SCT embedded at any extension position) x SCT signed over the reference entry with a pool key x opt-in x 0-2 mutations (version, timestamp, extensions, log id, key, codes, signature value, SCT issued for another chain, certificate embedding the unmutated SCT); ctutil.VerifySCT returns nil iff a verifier may be built for the key, the SCT is the embedded one (embedded route) and the reference accepts the signature over the entry derived from the presented chain. Non-trivial: a mutation, another chain, or a route other than plain X.509",
+	Name:  "ctutil",
+	Rule:  "generated chains (internal/world: 4 roots, 0-3 intermediates, leaf / precert / precert under a pre-issuer / final certificate with the SCT embedded at any extension position) x SCT signed over the reference entry with a pool key x opt-in x 0-2 mutations (version, timestamp, extensions, log id, key, codes, signature value, SCT issued for another chain, certificate embedding the unmutated SCT); ctutil.VerifySCT returns nil iff a verifier may be built for the key, the SCT is the embedded one (embedded route) and the reference accepts the signature over the entry derived from the presented chain. Non-trivial: a mutation, another chain, or a route other than plain X.509",
 	Quick: 2000, Thorough: 8000,
 }, genUtil, checkUtil)
